@@ -646,10 +646,19 @@ def gen_unlocked_case(rng, cid, p_violation=0.05, ncustom=None):
                 p["user-name"] = f"User {r['by']}"
                 p["when"] = r["when"]
     boosted = None
-    if rng.random() < 0.3:
+    scenario = []          # crates whose certification must NOT be papered over by blanket exemptions
+    if rng.random() < 0.45:
         boosted = boost_unpublished(rng, pkgs, store, reg, crits, notes)
     if rng.random() < 0.4:
         boost_shared_exemption(rng, pkgs, store, crits, notes)
+    if peers_struct and rng.random() < 0.3:
+        n = boost_excluded_wildcard(rng, pkgs, store, peers_struct, reg, crits, notes)
+        if n:
+            scenario.append(n)
+    if rng.random() < 0.5:
+        n = boost_overlapping_name(rng, pkgs, store, crits, notes)
+        if n:
+            scenario.append(n)
     # crates.io metadata matches (description) exactly for the packages declared audit-as-crates-io,
     # so that the audit-as pre-check of `cargo vet` accepts the configuration
     meta = {}
@@ -661,7 +670,82 @@ def gen_unlocked_case(rng, cid, p_violation=0.05, ncustom=None):
             "mode": "unlocked", "allow_criteria_changes": True}
     if boosted:
         case["boosted_unpublished"] = boosted
+    if scenario:
+        case["scenario"] = scenario
     return finalize(case)
+
+
+def boost_excluded_wildcard(rng, pkgs, store, peers_struct, reg, crits, notes):
+    """a crate listed in an import's `exclude` for which the peer serves a wildcard audit (plus an ordinary audit)
+    that matches the version in use, and a STALE copy of that wildcard audit in imports.lock from before the
+    exclusion — nothing of it may be used or written back"""
+    cands = sorted({p["name"] for p in pkgs if p["source"] == "registry"})
+    peers = [k for k in store["imports"]]
+    if not cands or not peers:
+        return None
+    n = rng.choice(cands)
+    peer = rng.choice(sorted(peers))
+    imp = store["imports"][peer]
+    url = imp["url"][0]
+    pf = peers_struct.get(url)
+    if pf is None:
+        return None
+    ex = imp.setdefault("exclude", [])
+    if n not in ex:
+        ex.append(n)
+    v = [p["version"] for p in pkgs if p["name"] == n and p["source"] == "registry"][0]
+    u = rng.randint(1, 3)
+    have = {r["version"]: r for r in reg.get(n, [])}
+    r = have.get(v)
+    if r is None:
+        r = {"version": v}
+        reg.setdefault(n, []).append(r)
+        reg[n].sort(key=lambda x: VERSIONS.index(x["version"]) if x["version"] in VERSIONS else 99)
+    r["by"], r["when"] = u, DATES[3]
+    w = {"user-id": u, "start": DATES[0], "end": DATES[7], "criteria": ["safe-to-deploy"], "notes": notes()}
+    pf.setdefault("wildcard_audits", {}).setdefault(n, []).append(w)
+    if rng.random() < 0.6:
+        pf.setdefault("audits", {}).setdefault(n, []).append({"kind": "full", "version": rng.choice(VERSIONS), "criteria": ["safe-to-run"], "notes": notes()})
+    lockf = store["lock"]["audits"].setdefault(peer, {"criteria": {}, "audits": {}, "wildcard_audits": {}})
+    if rng.random() < 0.7:
+        lockf.setdefault("wildcard_audits", {}).setdefault(n, []).append(dict(w))
+    for tbl in ("audits", "exemptions", "wildcard_audits", "trusted"):
+        store[tbl].pop(n, None)
+    # the crate itself is certified by an own full audit (so that the store can vet without the excluded entries)
+    store["audits"][n] = [{"kind": "full", "version": v, "criteria": ["safe-to-deploy"] + [c for c in crits if c not in BUILTINS], "notes": notes()}]
+    return n
+
+
+def boost_overlapping_name(rng, pkgs, store, crits, notes):
+    """one crate name used by a first-party (path) package AND a crates.io package, the first-party version being
+    the LOWER one, the crates.io one certified only through an exemption"""
+    byname = {}
+    for p in pkgs:
+        byname.setdefault(p["name"], []).append(p)
+    cands = [n for n, ps in byname.items() if len(ps) == 2 and {q["source"] for q in ps} == {"registry", "path"}
+             and all(q["version"] in VERSIONS for q in ps)]
+    if not cands:
+        return None
+    n = rng.choice(sorted(cands))
+    fp = [q for q in byname[n] if q["source"] == "path"][0]
+    tp = [q for q in byname[n] if q["source"] == "registry"][0]
+    if VERSIONS.index(fp["version"]) > VERSIONS.index(tp["version"]):
+        # swap the two version numbers (and the dependency edges that name them)
+        a, b = fp["version"], tp["version"]
+        for q in pkgs:
+            for d in q["deps"]:
+                if d["name"] == n:
+                    d["version"] = b if (d["version"] == a and d["source"] == "path") else (a if (d["version"] == b and d["source"] == "registry") else d["version"])
+        fp["version"], tp["version"] = b, a
+    for k in [k for k in store["policy"] if k.split(":")[0] == n]:
+        del store["policy"][k]
+    store["policy"][f"{n}:{fp['version']}"] = {"audit-as-crates-io": False}
+    store["policy"][f"{n}:{tp['version']}"] = {"notes": "third party"}
+    for tbl in ("audits", "wildcard_audits", "trusted"):
+        store[tbl].pop(n, None)
+    every = ["safe-to-deploy"] + [c for c in crits if c not in BUILTINS]
+    store["exemptions"][n] = [{"version": tp["version"], "criteria": every, "suggest": True, "notes": notes()}]
+    return n
 
 
 def blanket_exemptions(store, pkgs, crits, notes, skip):
@@ -881,6 +965,15 @@ def gen_history(rng, cid, length=None):
         # the store as generated passes a plain `cargo vet` (stale imports.lock records and all)
         blanket_exemptions(store, base["graph"]["packages"], crits, notes, base["boosted_unpublished"])
         add(["check"])
+    elif base.get("scenario") and rng.random() < 0.75:
+        # a planted scenario: everything else is exempted so that the store vets as generated, and the history
+        # starts with the commands the scenario is about
+        for p in base["graph"]["packages"]:
+            if p["name"] in base["scenario"]:
+                continue
+            blanket_exemptions(store, [p], crits, notes, None)
+        add(["check"])
+        add(["prune"] if rng.random() < 0.7 else ["regenerate", "imports"])
     elif first < 0.6:
         add(["regenerate", "exemptions"])
     elif first < 0.8:
